@@ -472,6 +472,54 @@ func runC11(p *core.Prog, r *core.Report, tier string) {
 		r.Floor("C11.l proposer entry applications", nOpt, 1)
 	}
 
+	// ---- (n) the settings of a validator are looked up under the validator's key: where the key handed to
+	// ProposerConfig is taken from the account, it is util.ValidatorPubkey(account) — the composite key of a
+	// distributed account — never the account's own PublicKey() (a key share no proposer entry is written for) ----
+	nPC := 0
+	for _, f := range p.SrcFuncs() {
+		for _, ci := range core.Calls(f, func(c *ssa.CallCommon) bool { return core.MethodName(c) == "ProposerConfig" }) {
+			var pk ssa.Value
+			for _, a := range ci.Common().Args {
+				if strings.HasSuffix(a.Type().String(), "phase0.BLSPubKey") {
+					pk = a
+				}
+			}
+			if pk == nil {
+				continue
+			}
+			nPC++
+			d := ds.D(pk)
+			isShare := func(x *core.VD) bool { return x.Kind == "call" && strings.HasSuffix(x.Name, "Account.PublicKey") }
+			share := d.Any(isShare)
+			via := d.MentionsCall("util.ValidatorPubkey")
+			// a key array filled in place: copy(pubkey[:], …)
+			if ld, ok := pk.(*ssa.UnOp); ok {
+				if al, ok := ld.X.(*ssa.Alloc); ok && al.Referrers() != nil {
+					for _, ref := range *al.Referrers() {
+						sl, ok := ref.(*ssa.Slice)
+						if !ok || sl.Referrers() == nil {
+							continue
+						}
+						for _, r2 := range *sl.Referrers() {
+							if c, ok := r2.(*ssa.Call); ok {
+								if b, ok := c.Call.Value.(*ssa.Builtin); ok && b.Name() == "copy" && c.Call.Args[0] == ssa.Value(sl) {
+									sd := ds.D(c.Call.Args[1])
+									if sd.Any(isShare) {
+										share = true
+										d = sd
+									}
+								}
+							}
+						}
+					}
+				}
+			}
+			r.Check(!share || via, "C11.n", fmt.Sprintf("%s|proposer-config-key#%d", core.FnKey(f), nPC), p.Pos(ci.Pos()), "the key the settings are looked up under is not an account's own PublicKey()",
+				"the settings are looked up under "+d.String()+": for a distributed account this is the key share, which no proposer entry names — the validator gets the default settings instead of its own")
+		}
+	}
+	r.Floor("C11.n ProposerConfig call sites", nPC, 5)
+
 	// ---- (f) preparations ----
 	nPrep := 0
 	for _, f := range prepFns {
